@@ -157,6 +157,12 @@ def rule_c14(an, res):
                         if not is_age_loop(segs):
                             continue
                         check_age_loop(res, prop, cm, roles, m, seg, lp, segs, clocks)
+                        # counts decay only at aging points: a dynamically_age() call, or just before a victim is chosen
+                        okp = k in ('AGE', 'INSERT')
+                        res.ob('R-AGE-POINT', ok=okp)
+                        if not okp:
+                            V(res, prop, 'R-AGE-POINT', cm, where_of(m, seg), 'aging pass outside an aging point', lp.site,
+                              '%s runs the aging pass; use counts decay only in dynamically_age() or just before an insert chooses its victim' % m.key())
                 if k == 'AGE' and ops.nothing_to_do(top):
                     res.ob('R-AGE-TALLY', ok=True)
                 elif k == 'AGE':
